@@ -97,13 +97,16 @@ type c18World struct {
 	maybeVerified map[string]bool
 	neg           map[string]time.Time
 	// probe unit only: what the stub resolver says about a bare name
-	probeTruth map[string]string // see c18ProbeOutcomes
-	probeCalls []string
-	focus      []string // recently touched spellings (generator aid only)
-	fixed      map[string]int // fixed_domain_ttl
-	optimistic bool
-	opt        *DnsControllerOption
-	reloads    int
+	probeTruth map[string]string // see c18ProbeOutcomes (first bootstrap resolver)
+	// second bootstrap resolver, when the world has two: its own view of each name
+	probeTruth2 map[string]string
+	resolver2   netip.AddrPort
+	probeCalls  []string
+	focus       []string       // recently touched spellings (generator aid only)
+	fixed       map[string]int // fixed_domain_ttl
+	optimistic  bool
+	opt         *DnsControllerOption
+	reloads     int
 }
 
 func (w *c18World) touch(s string) {
@@ -166,11 +169,12 @@ func c18NewWorldFixed(mode consts.DialMode, resolvers []netip.AddrPort, optimist
 	}
 	return &c18World{
 		cp: cp, dc: dc, ctx: ctx, fixed: fixed, optimistic: optimistic, opt: opt,
-		dns:        map[string]map[uint16][]c18DnsEntry{},
-		verified:   map[string]bool{},
+		dns:           map[string]map[uint16][]c18DnsEntry{},
+		verified:      map[string]bool{},
 		maybeVerified: map[string]bool{},
-		neg:        map[string]time.Time{},
-		probeTruth: map[string]string{},
+		neg:           map[string]time.Time{},
+		probeTruth:    map[string]string{},
+		probeTruth2:   map[string]string{},
 	}
 }
 
@@ -875,7 +879,11 @@ func (w *c18World) c18StubResolver() func(ctx context.Context, d netproxy.Dialer
 		}
 		truth := "ee"
 		if !strings.ContainsAny(host, ":[] ") {
-			if t, ok := w.probeTruth[c18BareName(host)]; ok {
+			tm := w.probeTruth
+			if w.resolver2.IsValid() && dns == w.resolver2 {
+				tm = w.probeTruth2
+			}
+			if t, ok := tm[c18BareName(host)]; ok {
 				truth = t
 			}
 		}
